@@ -62,13 +62,22 @@ class GridBuilder:
         growable = [i + 1 for i, r in enumerate(self.rows)]
         w = weights or {"headers": 1, "rowitems": 4, "sep": 1, "appendrow": 1, "newrow": 1, "rowadd": 3, "addrow": 2}
         choices = [k for k in w for _ in range(w[k])]
+        attached = [i + 1 for i, r in enumerate(self.rows) if r["tbl"] != 0 and not r["sep"]]
         while True:
             k = rng.choice(choices)
             if k == "rowadd" and not growable:
                 continue
             if k == "addrow" and not detached:
                 continue
+            if k == "readd" and not attached:
+                continue
             break
+        if k == "readd":
+            # a row that is already in a table is added again (to the same or another table)
+            r = rng.choice(attached)
+            self.ops.append({"op": "addrow", "t": t, "r": r})
+            self.rows[r - 1]["tbl"] = t
+            return k
         if k == "headers":
             self.ops.append({"op": "headers", "t": t, "items": [items() for _ in range(rng.randint(0, maxcells))]})
         elif k == "rowitems":
@@ -106,8 +115,11 @@ def gen_grid(seed, tier):
         b = GridBuilder(rng, ntables=1 if i % 5 else 2)
         steps = rng.randint(3, 25)
         wide = i % 7 == 0
+        w = {"headers": 1, "rowitems": 4, "sep": 1, "appendrow": 1, "newrow": 1, "rowadd": 3, "addrow": 2}
+        if i % 3 == 0:
+            w["readd"] = 1
         for _ in range(steps):
-            b.step(maxcells=14 if wide else 4, items=lambda: S(rng.choice(["a", "bb", ""])))
+            b.step(maxcells=14 if wide else 4, items=lambda: S(rng.choice(["a", "bb", ""])), weights=w)
         out.append(b.ops)
     return out
 
@@ -170,7 +182,14 @@ def gen_items(seed, tier):
                     d = {"k": "cell", "inner": d}
                 items.append(d)
         asrow = rng.random() < 0.8
-        ops.append({"op": "rowitems" if asrow else "headers", "t": 1, "items": items})
+        detached = asrow and rng.random() < 0.3
+        if detached:
+            # cells placed in a row that joins the table only later (possibly after the item was mutated)
+            ops.append({"op": "newrow", "how": "new", "t": 1, "cap": 0})
+            for it in items:
+                ops.append({"op": "rowadd", "r": 1, "item": it})
+        else:
+            ops.append({"op": "rowitems" if asrow else "headers", "t": 1, "items": items})
         for _ in range(rng.randint(0, 5)):
             c = rng.randint(1, len(items))
             ref = {"kind": "cell", "r": 1, "c": c} if asrow else {"kind": "hcell", "t": 1, "c": c}
@@ -179,6 +198,8 @@ def gen_items(seed, tier):
                 ops.append({"op": "mutate", "cell": ref, "item": ni})
             else:
                 ops.append({"op": "update", "cell": ref})
+        if detached:
+            ops.append({"op": "addrow", "t": 1, "r": 1})
         # "the same text as shown by every renderer": CSV and HTML show exactly the cell texts
         k = rng.choice(["csv", "html", "none"])
         if k != "none":
@@ -226,7 +247,9 @@ def gen_errors(seed, tier):
             eid += 1
             if r < 0.4:
                 before = len(b.ops)
-                b.step(maxcells=3, items=lambda: S(rng.choice(["a", "bb", ""])))
+                b.step(maxcells=3, items=lambda: S(rng.choice(["a", "bb", ""])),
+                       weights={"headers": 1, "rowitems": 4, "sep": 1, "appendrow": 1, "newrow": 1, "rowadd": 3, "addrow": 2,
+                                "readd": 1 if i % 4 == 0 else 0})
                 op = b.ops[-1]
                 if op["op"] in ("headers", "rowitems"):
                     ncols = max(ncols, len(op["items"]))
@@ -513,6 +536,11 @@ def gen_text(seed, tier, sized=0.0, aligns=0.3):
             if rng.random() < 0.8:
                 b.ops.append(rnd_decor_op(rng, 1))
             b.ops.append({"op": "render", "w": 1, "entry": rng.choice(["Render", "RenderTo"])})
+            # items change between renders (same-size and different-size texts), with Update: the next render follows
+            more = mutate_ops(rng, [o for o in b.ops if o["op"] not in ("mutate", "update")], TEXTS + ["ab", "cd", "xy"], p=0.5)
+            if more:
+                b.ops += more
+                b.ops.append({"op": "render", "w": 1, "entry": "Render"})
         out.append(b.ops)
     return out
 
@@ -570,6 +598,14 @@ def gen_html(seed, tier):
     for i in range(n):
         b = GridBuilder(rng)
         build_table(rng, b, rng.randint(0, 4), rng.randint(0, 6), lambda: S(hs()) if rng.random() < 0.9 else rnd_item(rng, HOSTILE_HTML))
+        att = [j + 1 for j, x in enumerate(b.rows) if x["tbl"] and not x["sep"]]
+        if att and rng.random() < 0.2:
+            # the same row object listed twice: row numbers are positions in the table, not what the row remembers
+            r0 = rng.choice(att)
+            b.ops.append({"op": "addrow", "t": 1, "r": r0})
+            if rng.random() < 0.5:
+                b.ops.append({"op": "rowitems", "t": 1, "items": [S(hs())]})
+                b.rows.append({"sep": False, "n": 1, "tbl": 1})
         b.ops.append({"op": "wrap", "kind": "html", "over": {"t": 1}})
         if rng.random() < 0.8:
             b.ops.append({"op": "htmlopts", "w": 1, "id": hs() if rng.random() < 0.6 else "", "class": hs() if rng.random() < 0.6 else "",
@@ -639,6 +675,11 @@ def gen_json(seed, tier):
                               "v": rng.choice(["vtrue", "vtrue", "vfalse", "vbad" if rng.random() < 0.3 else "vtrue"])})
         b.ops.append({"op": "wrap", "kind": "json", "over": {"t": 1}})
         b.ops.append({"op": "render", "w": 1, "entry": rng.choice(["Render", "RenderTo"])})
+        if rng.random() < 0.3:
+            # the same wrapper again after the header was replaced (same width; sometimes now empty / duplicate)
+            nh = [rng.choice(JSON_TEXTS) for _ in hdr] if rng.random() < 0.4 else rng.sample([t for t in JSON_TEXTS if t != ""], len(hdr))
+            b.ops.append({"op": "headers", "t": 1, "items": [S(h) for h in nh]})
+            b.ops.append({"op": "render", "w": 1, "entry": "Render"})
         out.append(b.ops)
     return out
 
@@ -680,6 +721,12 @@ def gen_total(seed, tier):
         b = GridBuilder(rng)
         for _ in range(rng.randint(0, 30)):
             b.step(maxcells=rng.choice([0, 1, 2, 4, 11]), items=item)
+        ncols = max([0] + [x["n"] for x in b.rows if x["tbl"]] + [len(o["items"]) for o in b.ops if o["op"] == "headers"])
+        for c in range(0, ncols + 1):
+            if rng.random() < 0.3:
+                b.ops.append({"op": "setprop", "owner": {"kind": "column", "t": 1, "n": c}, "k": "k_align", "v": rng.choice(["vL", "vR", "vC"])})
+            if rng.random() < 0.1:
+                b.ops.append({"op": "setprop", "owner": {"kind": "column", "t": 1, "n": c}, "k": "k_skip", "v": rng.choice(["vtrue", "vfalse", "vbad"])})
         b.ops.append({"op": "renderall", "t": 1})
         out.append(b.ops)
     return out
@@ -730,6 +777,8 @@ def gen_paths(seed, tier):
             for c in range(0, ncols + 1):
                 if rng.random() < 0.4:
                     b.ops.append({"op": "setprop", "owner": {"kind": "column", "t": 1, "n": c}, "k": "k_align", "v": rng.choice(["vL", "vR", "vC"])})
+        # items changed after they were added (with Update): every path must show the new text
+        b.ops += mutate_ops(rng, b.ops, TEXTS, p=0.3)
         if rng.random() < 0.25:
             # a user callback (sometimes failing) registered before any further wrapper exists: it must not
             # change what is rendered (the reference path has no such callback)
@@ -766,6 +815,8 @@ def gen_repeat(seed, tier):
                               "v": rng.choice(["vL", "vR", "vC"])})
         if rng.random() < 0.3:
             b.ops.append({"op": "tblerr", "t": 1, "e": "E1"})
+        # items mutated behind the cells' backs, some without Update: no render may re-read them
+        b.ops += mutate_ops(rng, b.ops, TEXTS, p=0.4)
         nwr = 0
         text_wr = []
         for _ in range(rng.randint(3, 12)):
@@ -826,10 +877,18 @@ def gen_failclosed(seed, tier):
             b.ops.append({"op": "regdecor", "name": name, "custom": dict(zip(fields, rng.sample(GLYPHS, len(fields))))})
             mine.append(name)
         b.ops.append({"op": "wrap", "kind": "text", "over": {"t": 1}})
-        for _ in range(rng.randint(1, 4)):
+        for _ in range(rng.randint(1, 5)):
             name = rng.choice(DECOR_NAMES + mine + mine + ["nonesuch", "", "NONE", "Utf8-Heavy", "mine", "ascii", " none", "none "])
             b.ops.append({"op": "decor", "w": 1, "name": name})
             b.ops.append({"op": "render", "w": 1, "entry": rng.choice(["Render", "RenderTo"])})
+            if rng.random() < 0.4:
+                # register / overwrite a name after it has been used: the next selection by name sees the latest
+                nm = rng.choice(mine + ["mine", "late"])
+                fields = rng.sample(DECOR_FIELDS, rng.randint(1, 6))
+                b.ops.append({"op": "regdecor", "name": nm, "custom": dict(zip(fields, rng.sample(GLYPHS, len(fields))))})
+                mine.append(nm)
+                b.ops.append({"op": "decor", "w": 1, "name": nm})
+                b.ops.append({"op": "render", "w": 1, "entry": "Render"})
         out.append(b.ops)
     return out
 
@@ -839,7 +898,8 @@ def gen_auto(seed, tier):
     rng = random.Random(seed * 15487469 + 19)
     n = 120 if tier == "quick" else 3000
     out = []
-    names = ["mine", "Mine", "MINE", "a.b", "a.b.c", "x", "csv", "CSV", "Json", "texttable", "texttable.z", "utf8-heavy", "my style", "é", "a"]
+    names = ["mine", "Mine", "MINE", "a.b", "a.b.c", "x", "csv", "CSV", "Json", "texttable", "texttable.z", "utf8-heavy", "my style", "é", "a",
+             "csv-friendly", "html5-boxes", "jsonx", "markdownish", "texttable-compact", "dashed", "ivy.league", "e", "htm", "json.x"]
     base = ["csv", "html", "json", "markdown", "texttable"] + DECOR_NAMES
     for i in range(n):
         ops = []
